@@ -127,6 +127,42 @@ ConvIntVerdict(e) ==
           ELSE Good(slots, it)
 
 -----------------------------------------------------------------------------
+(* Programs on the iterator itself (C08): nth(k) for each k of e.ks on a fresh all_functions(n), then a
+   consuming tail.  all_functions yields every function once in increasing order and then terminates, whatever
+   Iterator method consumes it: nth(k) returns the item k places ahead, or nothing (and exhausts the iterator)
+   when fewer than k + 1 remain; count() is the number of items left; last() is the constant one; size_hint
+   brackets the number of items left. *)
+LOCAL SQV == INSTANCE SequencesExt
+NoItem == {0 - 1}
+IterRun(n, ks) ==
+  LET step(st, k) ==
+        IF ~st.ok THEN [st EXCEPT !.items = Append(@, NoItem)]
+        ELSE LET a == AddTab(n, st.cur, k) IN
+             IF ~a.ok THEN [cur |-> {}, ok |-> FALSE, items |-> Append(st.items, NoItem)]
+             ELSE LET s == Succ(n, a.on) IN [cur |-> s.on, ok |-> s.ok, items |-> Append(st.items, a.on)]
+  IN SQV!FoldLeft(step, [cur |-> {}, ok |-> TRUE, items |-> <<>>], ks)
+ItemOK(n, j, exp) == IF exp = NoItem THEN ~j.some
+                     ELSE j.some /\ j.t.n = n /\ WFTab(j.t) /\ Meaning(j.t) = exp
+LeqNum(A, B) == A = B \/ Less(A, B)
+IterProgVerdict(e) ==
+  IF MODE = "C02" THEN     \* well-formedness of every table the iterator hands out, however it is driven
+     (IF e.out # "ok" THEN Poison
+      ELSE IF \E k \in 1..Len(e.r.items) : e.r.items[k].some /\ ~WFTab(e.r.items[k].t) THEN Bad("malformed table")
+      ELSE IF e.tail = "last" /\ e.r.tail.last.some /\ ~WFTab(e.r.tail.last.t) THEN Bad("malformed table")
+      ELSE Good(slots, it))
+  ELSE IF MODE # "C08" THEN Setup(slots, it)
+  ELSE IF e.out # "ok" THEN Bad("outcome " \o e.out \o " not allowed")
+  ELSE LET st == IterRun(e.n, e.ks)
+           left == IF st.ok THEN CountFrom(e.n, st.cur) ELSE {}
+       IN IF Len(e.r.items) # Len(e.ks) \/ \E k \in 1..Len(e.ks) : ~ItemOK(e.n, e.r.items[k], st.items[k])
+          THEN Bad("nth: wrong item")
+          ELSE IF e.tail = "count" /\ ToSet(e.r.tail.count) # left THEN Bad("count of the remaining items")
+          ELSE IF e.tail = "last" /\ ~ItemOK(e.n, e.r.tail.last, IF st.ok THEN Dom(e.n) ELSE NoItem) THEN Bad("last item")
+          ELSE IF e.tail = "hint" /\ ~(LeqNum(ToSet(e.r.tail.lo), left) /\ (e.r.tail.has_hi => LeqNum(left, ToSet(e.r.tail.hi))))
+          THEN Bad("size_hint does not bracket the remaining items")
+          ELSE Good(slots, it)
+
+-----------------------------------------------------------------------------
 (* Canonization (C04: the representative; C05: the certificate) *)
 Feasible(kind, n) ==
   CASE kind = "n" -> n <= 9
@@ -145,11 +181,14 @@ WalkCovers(w, kind, n) ==
      \/ w.kind = "npn"
      \/ n <= 1 /\ (kind = "p" \/ w.kind = "n")
 \* (a sequence already verified in this trace is not verified again: pcache.seqs)
+\* (the harness logs a walk identical to that of an earlier event of the same trace file as a reference to it)
+WalkOf(e) == IF "walk_ref" \in DOMAIN e THEN Rec[e.walk_ref].walk ELSE e.walk
 WalksOK(e, kind, n) ==
-  \A k \in 1..Len(e.walk) :
-     /\ WalkCovers(e.walk[k], kind, n)
-     /\ (<<e.walk[k].kind, e.walk[k].n, e.walk[k].swaps, e.walk[k].flips>> \in pcache.seqs \/ WalkValid(e.walk[k]))
-SeqsOf(e) == {<<e.walk[k].kind, e.walk[k].n, e.walk[k].swaps, e.walk[k].flips>> : k \in 1..Len(e.walk)}
+  LET wk == WalkOf(e) IN
+  \A k \in 1..Len(wk) :
+     /\ WalkCovers(wk[k], kind, n)
+     /\ (<<wk[k].kind, wk[k].n, wk[k].swaps, wk[k].flips>> \in pcache.seqs \/ WalkValid(wk[k]))
+SeqsOf(e) == LET wk == WalkOf(e) IN {<<wk[k].kind, wk[k].n, wk[k].swaps, wk[k].flips>> : k \in 1..Len(wk)}
 CanonVerdict(e) ==
   IF MODE \notin {"C04", "C05"} THEN Adopt(e, it)
   ELSE IF e.out # "ok" THEN (IF MODE = "C04" THEN Bad("canonization did not return") ELSE Poison)
@@ -176,9 +215,12 @@ CanonVerdict(e) ==
      (\* beyond enumeration: the walk must have been observed and be a verified cycle; the
       \* result must lie in the orbit (certificate) - minimality then follows from the walk
       \* theorem (mc/MC_Canon) for the loop code checked exactly at the smaller sizes
-      IF e.walk = <<>> THEN Assert(FALSE, <<"no walk recorded", l>>)
+      IF WalkOf(e) = <<>> THEN Assert(FALSE, <<"no walk recorded", l>>)
       ELSE IF ~e.le_in THEN Bad("result larger than the input")     \* in the library's own ordering
-      ELSE [Good(Sx, it) EXCEPT !.pc = [pcache EXCEPT !.seqs = @ \cup SeqsOf(e)]])
+      ELSE LET nb == {g \in (IF TIER = "thorough" THEN Neighbours2(e.kind, A.n, res.on) ELSE Neighbours(e.kind, A.n, res.on)) : Less(g, res.on)} IN
+           IF nb # {} THEN     \* a necessary condition: no table one (thorough: two) generator steps away is smaller
+              (IF PrintT(<<"QUERY", l, MinFn(A.n, nb)>>) THEN Bad("not the orbit minimum") ELSE Bad("?"))
+           ELSE [Good(Sx, it) EXCEPT !.pc = [pcache EXCEPT !.seqs = @ \cup SeqsOf(e)]])
 
 -----------------------------------------------------------------------------
 (* Two-level forms (C12 - C16).  Events are self-contained: operands (av, bv) and results (r)  *)
@@ -443,6 +485,7 @@ Verdict(e) ==
   ELSE IF e.ty = "two" THEN TwoVerdict(e)
   ELSE IF e.op = "canon" THEN CanonVerdict(e)
   ELSE IF e.op = "conv_int" THEN ConvIntVerdict(e)
+  ELSE IF e.op = "iter_prog" THEN IterProgVerdict(e)
   ELSE GenericVerdict(e)
 
 \* Dual traces: the same script run a second time (other build profile / other table type)
